@@ -191,6 +191,56 @@ fn run_case(c: &Case, plan: Plan, enc_thr: u32, dec_thr: u32) -> (bool, String) 
     (nontrivial, sha256(&buf))
 }
 
+/// Object-level case: several blocks / sub-blocks through Encoder and Decoder, packets delivered
+/// in a generated order with losses; digest over all packets and the decoder's answers.
+fn run_object_case(seed: u64, idx: u64, dec_thr: u32) -> (bool, String) {
+    use raptorq::{Decoder, Encoder};
+    let mut r = SplitMix(seed ^ idx.wrapping_mul(0x9FB2_1C65_1E98_DF25) ^ 0x0B1);
+    let al = [1usize, 2, 4, 8][r.below(4) as usize];
+    let tu = 1 + r.below((40 / al) as u64) as usize;
+    let t = tu * al;
+    let z = 1 + r.below(4) as usize;
+    let kt = z + r.below((30 * z) as u64) as usize;
+    let n = 1 + r.below(tu.min(3) as u64) as usize;
+    let f = (kt - 1) * t + 1 + r.below(t as u64) as usize;
+    let data = r.bytes(f);
+    let cfg = ObjectTransmissionInformation::new(f as u64, t as u16, z as u8, n as u16, al as u8);
+    let enc = Encoder::new(&data, cfg);
+    let mut packets = enc.get_encoded_packets(4 + r.below(6) as u32);
+    let mut buf: Vec<u8> = vec![];
+    for p in &packets {
+        buf.extend_from_slice(&p.serialize());
+    }
+    // shuffle, drop a few
+    for i in (1..packets.len()).rev() {
+        let j = r.below(i as u64 + 1) as usize;
+        packets.swap(i, j);
+    }
+    let drop = r.below(6) as usize;
+    packets.truncate(packets.len().saturating_sub(drop));
+    let mut dec = Decoder::new(cfg);
+    dec.verif_set_sparse_threshold(dec_thr);
+    let mut first_some = usize::MAX;
+    let mut out = None;
+    for (i, p) in packets.into_iter().enumerate() {
+        if let Some(o) = dec.decode(p) {
+            if first_some == usize::MAX {
+                first_some = i;
+            }
+            out = Some(o);
+        }
+    }
+    buf.extend_from_slice(&(first_some as u64).to_le_bytes());
+    match &out {
+        Some(b) => {
+            buf.push(1);
+            buf.extend_from_slice(b);
+        }
+        None => buf.push(0),
+    }
+    (out.is_some(), sha256(&buf))
+}
+
 fn main() {
     let a: Vec<String> = std::env::args().collect();
     let seed: u64 = a[1].parse().unwrap();
@@ -229,6 +279,17 @@ fn main() {
                         let mut out = vec![];
                         for &i in chunk {
                             let c = &workload[i];
+                            // every fourth case is an object-level case (several blocks / sub-blocks)
+                            if i % 4 == 3 {
+                                for (tname, thr) in thresholds {
+                                    let (nt, d) = match std::panic::catch_unwind(std::panic::AssertUnwindSafe(|| run_object_case(seed, i as u64, thr))) {
+                                        Ok(r) => r,
+                                        Err(_) => (false, "PANIC".to_string()),
+                                    };
+                                    out.push(format!("{i} kernel={kname},thr={tname},plan=object {} {d}", nt as u8));
+                                }
+                                continue;
+                            }
                             for (tname, thr) in thresholds {
                                 for (pname, plan) in plans.iter() {
                                     // the encoder-side threshold only matters for plan/unplanned
